@@ -15,6 +15,7 @@ Inductive case :=
          (pre_status : option (Z * bytes)) (pre_regs : list (pev item)) (pre_decrypted : list ukey) (pre_fired : list fired)
          (number : Z) (parent : bytes) (hashes : list (Z * bytes)) (items : list (pev item))
          (mtable : list (bytes * list N))
+         (rpc db : list fault)
          (obs_ok : bool)
          (post_status : option (Z * bytes)) (post_regs : list (pev item)) (post_decrypted : list ukey) (post_fired : list fired)
 | CTDecrypt (id : N) (regs : list (pev item)) (pre_decrypted : list ukey) (k : ukey) (post_decrypted : list ukey).
@@ -71,10 +72,10 @@ Definition sparse_node (number : Z) (parent : bytes) (hashes : list (Z * bytes))
 Definition check_case (c : case) : list N :=
   match c with
   | CTSync id sync_start depth range pre_status pre_regs pre_decrypted pre_fired number parent hashes items mtable
-           obs_ok post_status post_regs post_decrypted post_fired =>
+           rpc db obs_ok post_status post_regs post_decrypted post_fired =>
       let '(st, r, _) := tsync (table_match mtable) (multi_flavour sync_start depth range)
                                (sparse_node number parent hashes items)
-                               (mktstate (mkstate pre_status pre_regs) pre_decrypted pre_fired) [] in
+                               (mktstate (mkstate pre_status pre_regs) pre_decrypted pre_fired) [] rpc db in
       let ok := match r with Ok => true | _ => false end in
       if Bool.eqb ok obs_ok && status_eqb (st_status (ts_core st)) post_status &&
          list_eqb pev_eqb (st_rows (ts_core st)) post_regs && keyset_eqb (ts_decrypted st) post_decrypted &&
